@@ -34,7 +34,7 @@ def run_batch(items, dev, hashseed, single_thread):
     env = boot.child_env(dev)
     env["PYTHONHASHSEED"] = str(hashseed)
     if single_thread:
-        env["XLA_FLAGS"] += " --xla_cpu_multi_thread_eigen=false intra_op_parallelism_threads=1"
+        env["XLA_FLAGS"] += " --xla_cpu_multi_thread_eigen=false"
     p = subprocess.run([sys.executable, "-c", CODE.format(dev=dev, items=items)], env=env, cwd=boot.VERIF_DIR, capture_output=True, text=True, timeout=1800)
     line = [l for l in p.stdout.splitlines() if l.startswith("SELFCHECK ")]
     if not line:
